@@ -79,7 +79,7 @@ def plain(rng, depth=2):
 
 def gen_multi(rng):
     """Several references in one evaluated document, expanded by hand by the generator (expected document in 'expanded')."""
-    kind = rng.choice(['twins', 'twins', 'nested-same-target', 'nested-same-target', 'nested-via-template'])
+    kind = rng.choice(['twins', 'twins', 'nested-same-target', 'nested-same-target', 'nested-via-template', 'root-host', 'root-host'])
     labels = {'multi:' + kind}
     if kind == 'twins':
         # two documents whose distinguishing key differs only in type (or prints alike), both referenced from one host document
@@ -121,6 +121,24 @@ def gen_multi(rng):
         docs.insert(pos, docs.pop())
         expanded.insert(pos, expanded.pop())
         labels.add('twin:%s/%s' % (type(x).__name__, type(y).__name__))
+        return {'docs': docs, 'expanded': expanded, 'multi': kind, 'labels': sorted(labels)}
+    if kind == 'root-host':
+        # a document that consists only of a reference: it is a placeholder, never a candidate for a pattern (not even for {})
+        tdoc = plain(rng, 3)
+        tdoc['kindof'] = 'defaults'
+        sub = [k for k, v in tdoc.items() if isinstance(v, (dict, list))]
+        pat = rng.choice([{}, {}, {'kindof': 'defaults'}])
+        d = rng.choice(['$replace', '$merge'])
+        if sub and rng.random() < 0.6:
+            k = rng.choice(sub)
+            host, exp = {d: rng.choice([{'$match': pat, '$path': k}, [pat, k]])}, clone(tdoc[k])
+        else:
+            host, exp = {d: {'$match': pat}}, clone(tdoc)
+        docs, expanded = [tdoc, host], [clone(tdoc), exp]
+        if rng.random() < 0.5:
+            docs.reverse()
+            expanded.reverse()
+        labels.add('root-host:%s:%s' % (d, 'empty-pattern' if not pat else 'pattern'))
         return {'docs': docs, 'expanded': expanded, 'multi': kind, 'labels': sorted(labels)}
     t = plain(rng)
     t.pop('inner', None)
@@ -198,6 +216,13 @@ def gen_case(rng, i, tier):
             p2 = rng.choice(others)
             target['chained'] = '$merge:' + path_text(p2) if not any('.' in k for k in p2) and rng.random() < 0.5 else {'$replace': list(p2)}
             labels.add('chain')
+    if isinstance(target, list) and not cross and rng.random() < 0.3:
+        # the referenced list itself holds references (as a nested value, as a string entry)
+        others = [p for p in map_paths(docs[td]) if p[:len(tpath)] != tpath and tpath[:len(p)] != p and p != ('name',) and not any('.' in k for k in p)]
+        if others:
+            p2 = rng.choice(others)
+            target.insert(rng.randint(0, len(target)), rng.choice([{'name': 'proxy', 'res': {'$replace': path_text(p2)}}, '$merge:' + path_text(p2), {'sub': {'$merge': list(p2), 'own': 1}}]))
+            labels.add('chain-in-list-target')
     if cross and isinstance(target, dict) and rng.random() < 0.35:
         # document-relative reference inside a cross-document target: resolves in the host's document when inlined
         target['chained'] = rng.choice([{'$merge': 'tpl', 'extra': 1}, '$merge:name', {'$replace': 'tpl'}, [{'$merge': 'tpl'}] if False else {'$merge': 'tpl'}])
